@@ -17,7 +17,7 @@ from ..common import pick, shard_count
 META = {
     'rule': ('exact two-slope elbows: arms la, lb >= 3 segments, x gaps i.i.d. in {1,2,3,4}, slopes j1/8 != j2/8 '
              'with |j| <= 64, offset m/2^e (|m| <= 4096, e <= 3, half of them shifted by an integer so that '
-             'y >= 0 when the bound on m allows), x0 in 0..8, layouts {C,F,view,int64 when integral}; quick: '
+             'y >= 0 when the bound on m allows), x0 in 0..8 (30 %: -64..64, the axis may cross zero), layouts {C,F,view,int64 when integral}; quick: '
              'orientation class drawn uniformly from {rising, falling, V, Lambda, flat first arm, flat second arm}, '
              'arms <= 12; thorough: every ordered slope pair (129*128) once, arms to 64, plus long arms of '
              '150-2000 segments; each elbow through 19 detector configurations (+ kneedle.knee(t=0) on monotone '
@@ -76,6 +76,9 @@ def build(x0, gaps, la, j1, j2, m, e):
 def elbow(rng, la, lb, j1, j2):
     gaps = rng.integers(1, 5, la + lb)
     x0 = int(rng.integers(0, 9))
+    if rng.random() < 0.3:
+        # the x axis may start anywhere (relative time, offsets around a reference): negative origins, axes crossing zero
+        x0 = int(rng.integers(-64, 65))
     e = int(rng.integers(0, 4))
     m = int(rng.integers(-4096, 4097))
     shifted = False
